@@ -213,8 +213,9 @@ func (m *omap) clear(in *interpreter) {
 }
 
 type omapIter struct {
-	m *omap
-	i int
+	m   *omap
+	i   int
+	rev bool // iterate from the newest entry to the oldest (another order Go may choose)
 }
 
 func (it *omapIter) next() tuple {
@@ -222,6 +223,12 @@ func (it *omapIter) next() tuple {
 		for it.i < len(it.m.keys) {
 			i := it.i
 			it.i++
+			if it.rev {
+				i = len(it.m.keys) - 1 - i
+				if i < 0 {
+					break
+				}
+			}
 			if !it.m.dead[i] {
 				return tuple{true, it.m.keys[i], it.m.vals[i]}
 			}
